@@ -74,6 +74,16 @@ def _bytes_cases(tier, seed):
     base = [b'', b'#', b'# x', b'\n', hdr, hdr + good, good, hdr + good[:-3], hdr + good[3:], hdr + b'garbage',
             hdr + zlib.compress(b'\xff\xfe bad utf8\n'), b'#a\n#b\n' + good, b'\n' + good, hdr + zlib.compress(b''),
             b'# only comments\n# more\n']
+    # valid inventories whose compressed body happens to contain the bytes that start a header line (a line feed followed by '#',
+    # or a '#' right at the start of the body): only the leading lines are header
+    found = 0
+    for k in range(20000):
+        body = zlib.compress(''.join(f'pkg{k}.mod{i}.name{(i * k) % 97} py:function 1 pkg{k}.mod{i}.html#name -\n' for i in range(12)).encode())
+        if b'\n#' in body or body.startswith(b'#'):
+            base.append(hdr + body)
+            found += 1
+            if found >= 3:
+                break
     for b in base:
         yield {'base_url': 'http://h', 'data': list(b)}
     rnd = random.Random(seed + 2)
@@ -94,8 +104,29 @@ def _bytes_cases(tier, seed):
 def _check_getpayload(case):
     inv, log = _inv()
     kw = {'base_url': case['base_url'], 'data': bytes(case['data'])}
-    return check_method(REG.contracts[(F, 'SphinxInventory._getPayload')], inv, '_getPayload', kw, ENV,
-                        ghosts={'errors': lambda: log.errors})
+    r = check_method(REG.contracts[(F, 'SphinxInventory._getPayload')], inv, '_getPayload', kw, ENV,
+                     ghosts={'errors': lambda: log.errors})
+    if r:
+        return r
+    # what the payload is: the text that the data after the leading '#' lines decompresses to (the format of objects.inv)
+    data = bytes(case['data'])
+    while data.startswith(b'#') and b'\n' in data:
+        data = data.split(b'\n', 1)[1]
+    try:
+        want = zlib.decompress(data).decode('utf-8')
+    except Exception:     # noqa
+        want = None
+    inv2, log2 = _inv()
+    try:
+        got = inv2._getPayload(case['base_url'], bytes(case['data']))
+    except Exception as ex:     # noqa
+        return {'observed': f'_getPayload raised {type(ex).__name__}: {ex}', 'required': 'never aborts', 'class': 'payload-raise'}
+    if want is not None and got != want:
+        return {'observed': f'a valid inventory ({len(case["data"])} bytes) yields a payload of {len(got)} characters, errors reported: {log2.errors}',
+                'required': f'the {len(want)} characters its body decompresses to', 'class': 'payload-lost'}
+    if want is None and got != '':
+        return {'observed': f'an unusable inventory yields the payload {got[:40]!r}', 'required': "'' and a reported problem", 'class': 'payload-invented'}
+    return None
 
 
 class _Cache:
@@ -227,7 +258,7 @@ def _written_cases(tier, seed):
     for k in ((0, 2) if tier == 'quick' else range(len(site.PRIVACY_SETS))):
         yield {'written': 'B', 'privacy': k}
     yield {'written': 'acme'}
-    for k in ((1,) if tier == 'quick' else range(4)):
+    for k in ((1, 4) if tier == 'quick' else range(5)):
         yield {'written': 'kitchen', 'options': k}
 
 
